@@ -9,6 +9,7 @@ One JSON object per input line, one per output line.
   {"op":"mk","path":p,"expanded":e,"cwd":c}              → {"relative","absolute","cwd"}
   {"op":"load","cwd":c,"cpd":null|d,"ref":r,"items":[…]} → {"ok","trace":[{"rel","abs","base"}],"spec":[…],"cwd","cpd"}
         item = {"path":rel} | {"sub":ref,"items":[…]} | {"list":ref,"rels":[rel,…]} | {"fail":true}
+               | {"obj":ref,"rem":dir,"dirmode":bool,"items":[…]}   (a config / directory given as a Path object)
   {"op":"run","cwd":c,"cpd":null|d,"items":[…]}           → the same for `runItems` (a command line), plus "nofail", "stable"
 -/
 import Lean.Data.Json
@@ -53,6 +54,10 @@ partial def itemsOf (j : Json) : List Item :=
   match j with
   | .arr xs => xs.toList.map fun x =>
       match x.getObjVal? "path", x.getObjVal? "sub", x.getObjVal? "list" with
+      | _, _, _ =>
+      if let .ok (.str r) := x.getObjVal? "obj" then
+        Item.subObj r.toList (getStr x "rem").toList (getBool x "dirmode") (itemsOf ((x.getObjVal? "items").toOption.getD (.arr #[])))
+      else match x.getObjVal? "path", x.getObjVal? "sub", x.getObjVal? "list" with
       | .ok (.str p), _, _ => Item.path p.toList
       | _, .ok (.str r), _ => Item.sub r.toList (itemsOf ((x.getObjVal? "items").toOption.getD (.arr #[])))
       | _, _, .ok (.str r) => Item.listFile r.toList ((getStrs x "rels").map String.toList)
